@@ -22,8 +22,8 @@ PROPERTIES = ["C16"]
 MANIFEST = {
     "C16": {
         "technique": "Lean 4 proof about an executable model of src/Document/Xml.cpp (skipSpace/comment loop, readToken, parseElement/content loop with cursor rewind, processing-instruction loop, unescapeString/escapeString, Element::toString) and of the Xml::Variant / Xml::Element handle heap of Xml.hpp (reference-counted blocks, sharing copies, clear, mutable accessors that clone unless the count is one) + differential correspondence model vs the real Xml.cpp (ASan/UBSan, exactly sized heap copies, watchdog, allocation budget) + independent Python reference (strict regex tokenizer with tag stack, xml.etree, own serialiser, escape/unescape, position checks)",
-        "text": "Machine-checked theorems over ALL byte strings / ALL element trees of the model: parse_total (the loop fuel text-length+2 handed to every loop and to the recursion is never exhausted), parse_no_oob (every read goes through peek/cstr which yield .oob behind the terminator; never reached), error_pos_inside (a reported line/column is exactly the line/column of an offset 0..length of the text, CR LF / CR / LF line ends), comments_are_whitespace + comments_between_tokens + comments_in_content (same-text forms: at every place where the parser looks for a token or for element content, starting in front of a complete comment equals starting behind it — token, next cursor, children, texts, final cursor; in front of a comment <!--body--> with no earlier '-->' skipSpace continues exactly as its outer loop does behind it, with right line bookkeeping; skipSpace is the only white-space skipper), pi_before_root (a <?..?> with ANY body that does not contain '?>' — '<', '<!--', lone '?', CR / LF / CRLF anywhere — is stepped over by one round of the prologue loop: it ends at its first '?>'), pi_prologue_skipped (end to end: white space + any number of such instructions + '<' of the root: parseDoc = parsing the root at the cursor behind the prologue, line bookkeeping right), escape_unescape (unescape(escape s) = s for text and attribute mode), unescape_no_growth, escape_no_overflow_policy (for EVERY reserve policy that reserves at least the minimum), escape_no_overflow (escapeString's own buffer management — initial slack, reserve at every escape, String::detach rounding, raw pointer writes — modelled with checked memory over constants regenerated from the sources: never a write at or behind the capacity, buffer = escape s), roundtrip / roundtrip_element / roundtrip_inside (parse(toString e) = e up to recorded line/column for every tree with well-formed names, distinct attribute keys, arbitrary NUL-free values, non-blank non-adjacent texts; by mutual induction on the tree with the parser positioned inside a larger text).; PropsDecor: roundtrip_decorated / comments_do_not_change_result (two-text form of the comment clause: for every well-formed tree, every placement of white-space/comment runs at every place where the tokenizer skips white space — before the root, inside start and end tags, around '=', before child elements and end tags, next to text — and either quote kind per attribute, the decorated text parses to the same tree as the plain serialisation); PropsHeap (copy independence on the handle heap, under the invariant 'reference count >= number of handles'): release_keeps_values (dropping handles frees only blocks nobody points to and keeps the value of every variable), varlevel_step_independent / assign_copies_value / independent_partial (for all histories of Variant copy assignments, clears and text assignments — operator=(const String&) incl. its in-place write when the count is one —, values of any depth and sharing: the copy has the source's value and a variable no operation writes to keeps its value).  The model is tied to the current Xml.cpp on every run by executing identical op lines (parse, tostr, rt = Xml::toString then parse, esc, unesc, copy, deep; pparse/parser/file = the public entry points Xml::parse(const String&), Xml::Parser, Xml::save+load; hassign/hclear/hsetstr/hmut = histories over 4 Xml::Variant variables with the value of EVERY variable printed after EVERY op: copy assignment, clear, text assignment, mutable toElement() along a path followed by rename/attribute/append/remove/clear/text assignment/append of another variable, all histories of <= 3 ops over 12 ops plus state-aware random histories) on both and comparing ok/fail, error line/column/message class, the dump of the parsed tree with element positions, and serialised bytes, and for escm the capacity of the String escapeString returns: every byte string of length <= 3 (thorough 4) over a 14-symbol markup alphabet, all small element bodies / attribute lists, generated decorated documents (comments next to text, processing instructions with line breaks, '<' and '<!--' behind '?' / line breaks inside them, entity and numeric references, both quote kinds), mutated and truncated documents, generated element trees incl. depth 1000, long values with many escapes swept across the capacity boundaries of escapeString's buffer (runs of 1..131 of each escapable byte, tails 0..3, plain heads, dense random values).",
-        "note": "Trusted: Lean kernel + propext/Classical.choice/Quot.sound; the hand translation of Xml.cpp into the model (validated by the correspondence run, not proved) — it mirrors the REPAIRED sources (fixes/xml/0001-0005: line breaks in attribute values as &#10;/&#13;, no endless loop on a comment next to text, rewind after a failed look-ahead, line breaks counted inside <?..?>, no white space / comment skipping inside <?..?>); entity table and escape conditions are written by hand in the model (not generated; the buffer constants of escapeString ARE generated, tools/areas/xml.py gen -> Nstd/Generated/XmlEscape.lean) and covered by esc/unesc on every single byte and all short strings.  libnstd String/HashMap/List are used as given (HashMap iteration = insertion order, append replaces an existing key's value); libc strpbrk/strchr/strncmp/strlen are list functions on the C string at a checked offset; glibc sscanf(\"#%u\") is modelled from its observed behaviour (white space, sign, strtoul saturation, cut to 32 bit).  pi_before_root / pi_prologue_skipped hold at full strength for the sources carrying fixes/xml/0005 (inside a processing instruction the loop no longer calls skipSpace, so '<!--' behind a '?' or a line break starts no comment); on sources without it the correspondence run reports \"<?a ?<!--?><r/>\" (corpus/C16/d39-pi-comment.txt).  OPEN in Props.lean: the two-text form of the comment clause (parse(pre++comment++post) vs parse(pre++post)).  'copies of element values are independent': proved on the handle heap model only for copy assignment, clear and text assignment to a variable (PropsHeap); the operations that write through an element handle (mutable toElement() down a path with clone-unless-sole, the edits incl. text assignment to a content entry) are in the model and executed against the real code and an eager-copy Python reference, but their independence/refinement theorem is OPEN (PropsHeap.lean); release gets enough fuel from the driver, fuel sufficiency (no leak) not proved; reference-count exactness is C09 (Rc).  The general two-text comment statement for arbitrary (ill-formed) texts is OPEN (Props.lean / PropsDecor.lean).  Stack depth of the recursive C++ parser is not modelled (documents nested 1000 deep are run; 10000 deep overflows the stack, outside the property's bound).  int overflow of line/column not modelled.  Allocation never fails.",
+        "text": "Machine-checked theorems over ALL byte strings / ALL element trees of the model: parse_total (the loop fuel text-length+2 handed to every loop and to the recursion is never exhausted), parse_no_oob (every read goes through peek/cstr which yield .oob behind the terminator; never reached), error_pos_inside (a reported line/column is exactly the line/column of an offset 0..length of the text, CR LF / CR / LF line ends), error_pos_exact, element_positions_exact (every element of a successful parse, at any depth, carries the line/column — computed from the text — of an offset at which a '<' stands; the proof carries 'the cursor's line number and line start are the line state of its offset' through every loop, so a stale line start such as a comment end kept as a bare pointer breaks it), comments_are_whitespace + comments_between_tokens + comments_in_content (same-text forms: at every place where the parser looks for a token or for element content, starting in front of a complete comment equals starting behind it — token, next cursor, children, texts, final cursor; in front of a comment <!--body--> with no earlier '-->' skipSpace continues exactly as its outer loop does behind it, with right line bookkeeping; skipSpace is the only white-space skipper), pi_before_root (a <?..?> with ANY body that does not contain '?>' — '<', '<!--', lone '?', CR / LF / CRLF anywhere — is stepped over by one round of the prologue loop: it ends at its first '?>'), pi_prologue_skipped (end to end: white space + any number of such instructions + '<' of the root: parseDoc = parsing the root at the cursor behind the prologue, line bookkeeping right), escape_unescape (unescape(escape s) = s for text and attribute mode), unescape_no_growth, escape_no_overflow_policy (for EVERY reserve policy that reserves at least the minimum), escape_no_overflow (escapeString's own buffer management — initial slack, reserve at every escape, String::detach rounding, raw pointer writes — modelled with checked memory over constants regenerated from the sources: never a write at or behind the capacity, buffer = escape s), roundtrip / roundtrip_element / roundtrip_inside (parse(toString e) = e up to recorded line/column for every tree with well-formed names, distinct attribute keys, arbitrary NUL-free values, non-blank non-adjacent texts; by mutual induction on the tree with the parser positioned inside a larger text).; PropsDecor: roundtrip_decorated / comments_do_not_change_result (two-text form of the comment clause: for every well-formed tree, every placement of white-space/comment runs at every place where the tokenizer skips white space — before the root, inside start and end tags, around '=', before child elements and end tags, next to text — and either quote kind per attribute, the decorated text parses to the same tree as the plain serialisation); PropsHeap (copy independence on the handle heap, under the invariant 'reference count >= number of handles'): release_keeps_values (dropping handles frees only blocks nobody points to and keeps the value of every variable), step_independent / independent / copy_then_any_history / assign_copies_value / reach_inv (for ALL histories of ALL operations of the model — Variant copy assignment, clear, operator=(const String&) incl. its in-place write when the count is one, and writes through the mutable toElement() down any path (clone of a shared element, replacement of a text/null, in-place use when the count is one) followed by any edit: rename, attribute, append text/element/another variable's Variant, remove first child, Element::clear, text assignment to a content entry —, values of any depth and sharing: the copy has the source's value and a variable no operation writes to keeps its value; the invariant holds in every reachable state).  The model is tied to the current Xml.cpp on every run by executing identical op lines (parse, tostr, rt = Xml::toString then parse, esc, unesc, copy, deep; pparse/parser/file/nofile = the public entry points Xml::parse(const String&), Xml::Parser, Xml::save+load incl. their failure branches (missing directory, a directory opened as a file); hassign/hclear/hsetstr/hmut = histories over 4 Xml::Variant variables with the value of EVERY variable printed after EVERY op: copy assignment, clear, text assignment, mutable toElement() along a path followed by rename/attribute/append/remove/clear/text assignment/append of another variable, all histories of <= 3 ops over 12 ops plus state-aware random histories) on both and comparing ok/fail, error line/column/message class, the dump of the parsed tree with element positions, and serialised bytes, and for escm the capacity of the String escapeString returns: every byte string of length <= 3 (thorough 4) over a 14-symbol markup alphabet, all small element bodies / attribute lists, generated decorated documents (comments next to text, processing instructions with line breaks, '<' and '<!--' behind '?' / line breaks inside them, entity and numeric references, both quote kinds), mutated and truncated documents, generated element trees incl. depth 1000, long values with many escapes swept across the capacity boundaries of escapeString's buffer (runs of 1..131 of each escapable byte, tails 0..3, plain heads, dense random values).",
+        "note": "Trusted: Lean kernel + propext/Classical.choice/Quot.sound; the hand translation of Xml.cpp into the model (validated by the correspondence run, not proved) — it mirrors the REPAIRED sources (fixes/xml/0001-0005: line breaks in attribute values as &#10;/&#13;, no endless loop on a comment next to text, rewind after a failed look-ahead, line breaks counted inside <?..?>, no white space / comment skipping inside <?..?>); entity table and escape conditions are written by hand in the model (not generated; the buffer constants of escapeString ARE generated, tools/areas/xml.py gen -> Nstd/Generated/XmlEscape.lean) and covered by esc/unesc on every single byte and all short strings.  libnstd String/HashMap/List are used as given (HashMap iteration = insertion order, append replaces an existing key's value); libc strpbrk/strchr/strncmp/strlen are list functions on the C string at a checked offset; glibc sscanf(\"#%u\") is modelled from its observed behaviour (white space, sign, strtoul saturation, cut to 32 bit).  pi_before_root / pi_prologue_skipped hold at full strength for the sources carrying fixes/xml/0005 (inside a processing instruction the loop no longer calls skipSpace, so '<!--' behind a '?' or a line break starts no comment); on sources without it the correspondence run reports \"<?a ?<!--?><r/>\" (corpus/C16/d39-pi-comment.txt).  OPEN in Props.lean: the two-text form of the comment clause (parse(pre++comment++post) vs parse(pre++post)).  'copies of element values are independent': proved on the handle heap model for all operations as INDEPENDENCE (variables other than the target keep their value; the copy gets the source's value); OPEN (PropsHeap.lean): `refines`, the functional effect of clear / text assignment / edits on the TARGET variable itself (tested against an eager-copy Python reference), ; release_fuel_suffices: the fuel handed to the destruction loop always suffices (strictly decreasing measure), that nothing leaks is NOT claimed here — reference-count exactness is C09 (Rc).  The general two-text comment statement for arbitrary (ill-formed) texts is OPEN (Props.lean / PropsDecor.lean).  Stack depth of the recursive C++ parser is not modelled (documents nested 1000 deep are run; 10000 deep overflows the stack, outside the property's bound).  int overflow of line/column not modelled.  Allocation never fails.",
         "design_ref": "DESIGN.md 3/C16",
     }
 }
@@ -667,6 +667,8 @@ def ref_line(op, impl):
     try:
         if w[0] in ("parse", "pparse", "parser") and len(w) == 2:
             return expect_parse(unhx(w[1]), impl)
+        if w[0] == "nofile" and len(w) == 1:
+            return "nofile load=0 pload=0 perr=1 save=0 dirload=0 pdirload=0 pdirerr=1"
         if w[0] == "file":
             w = ["rt"] + w[1:]
         if w[0] in ("tostr", "rt") and len(w) == 2:
@@ -1388,7 +1390,7 @@ def histories_for(ctx):
         ctx.notes.append("Xml.hpp does not carry the repairs of Xml::Variant (D15/D16): handle histories (hassign/hmut ...) not generated")
 
     # the public entry points (Xml::parse(const String&), Xml::Parser, Xml::save/load)
-    pub = ["pparse 3c61", "pparse -", "parser 3c613e3c2f623e", "parser " + hx(REGRESSIONS[0]), "pparse " + hx(REGRESSIONS[0]), "file (61@62=0a,t78)", "parser -"]
+    pub = ["nofile", "pparse 3c61", "pparse -", "parser 3c613e3c2f623e", "parser " + hx(REGRESSIONS[0]), "pparse " + hx(REGRESSIONS[0]), "file (61@62=0a,t78)", "parser -"]
     for d in rng.sample(docs, 300 if quick else 3000) + rng.sample(muts, 300 if quick else 3000):
         pub.append(("pparse " if rng.random() < 0.5 else "parser ") + hx(d))
     nfile = 0
